@@ -5,6 +5,8 @@ import (
 	"fmt"
 	"time"
 
+	"github.com/cuteLittleDevil/go-jt808/shared/consts"
+
 	"verif/harness/internal/core"
 	"verif/harness/internal/gen"
 	"verif/harness/internal/ref"
@@ -428,5 +430,105 @@ func c06QuietSpell(addr string, cid int, quiet time.Duration) (viol [][2]string,
 	}
 	t.Write(t.Frame(0x0002, 3, nil))
 	expect(0x0002, 3, nil, "the heartbeat after it")
+	return
+}
+
+// c06OversizedCommand: every frame the server writes takes the next platform serial — also a platform command that the application
+// sends with a body longer than the 10-bit length field can express (a parameter list that grew too long). Whatever the server
+// does with such a command, the frames that DO leave carry consecutive numbers: replies before and after it, an ordinary command
+// in between, and the oversized frame itself if it is written (it cannot be decoded; its serial is read at the header offset).
+// (seed C06w1: the oversized command is refused after its serial was taken.)
+func c06OversizedCommand(srv *svc.Server, cid int) (viol [][2]string, incon bool, frames int) {
+	bad := func(sig, detail string) { viol = append(viol, [2]string{sig, detail}) }
+	t, err := svc.Dial(srv.Addr, false, fmt.Sprintf("%d", 4300000+cid))
+	if err != nil {
+		return nil, true, 0
+	}
+	defer t.Close()
+	next := uint16(0)
+	expect := func(what string) bool {
+		rx, ok, to := t.Next(20 * time.Second)
+		if to {
+			incon = true
+			return false
+		}
+		if !ok {
+			bad("reply|connection closed by the server during a valid conversation", fmt.Sprintf("conn %d: waiting for %s", cid, what))
+			return false
+		}
+		serial := -1
+		if rx.F != nil {
+			serial = int(rx.F.Serial)
+		} else if u, _ := ref.Unescape(rx.Raw); len(u) >= 12 {
+			serial = int(u[10])<<8 | int(u[11]) // 2013 header: ID(2), attributes(2), phone(6), serial(2)
+		}
+		if serial != int(next) {
+			bad("serial|platform serial numbers not consecutive from 0 (mod 65536)", fmt.Sprintf("conn %d: frame #%d (%s) carries serial %d", cid, next, what, serial))
+			return false
+		}
+		next++
+		frames++
+		return true
+	}
+	tserial := uint16(10)
+	hb := func() bool {
+		tserial++
+		t.Write(t.Frame(0x0002, tserial, nil))
+		return expect("heartbeat reply")
+	}
+	if !hb() || !hb() {
+		return
+	}
+	small := make(chan cmdResult, 1)
+	go func() {
+		small <- sendCmd(srv.G, t.Phone, consts.P8104QueryTerminalParams, nil, 300*time.Millisecond, 20*time.Second)
+	}()
+	if !expect("ordinary command") {
+		return
+	}
+	<-small
+	if !hb() {
+		return
+	}
+	big := make(chan cmdResult, 1)
+	go func() {
+		big <- sendCmd(srv.G, t.Phone, consts.P8103SetTerminalParams, bytes.Repeat([]byte{0x11}, 1351), 300*time.Millisecond, 20*time.Second)
+	}()
+	r := <-big
+	// the oversized frame is on the wire (or was refused) by the time its call has returned
+	if r.kind == "stranded" {
+		incon = true
+		return
+	}
+	tserial++
+	t.Write(t.Frame(0x0002, tserial, nil))
+	// what comes next is either the oversized frame followed by the reply, or the reply alone
+	rx, ok, to := t.Next(20 * time.Second)
+	if to || !ok {
+		incon = true
+		return
+	}
+	serialOf := func(rx svc.Rx) int {
+		if rx.F != nil {
+			return int(rx.F.Serial)
+		}
+		if u, _ := ref.Unescape(rx.Raw); len(u) >= 12 {
+			return int(u[10])<<8 | int(u[11])
+		}
+		return -1
+	}
+	if s := serialOf(rx); s != int(next) {
+		bad("serial|platform serial numbers not consecutive from 0 (mod 65536)", fmt.Sprintf("conn %d: frame #%d (the first frame after a command with a 1351-byte body was sent: id %v) carries serial %d", cid, next, rx.F != nil, s))
+		return
+	}
+	next++
+	frames++
+	if rx.F == nil || rx.F.ID != 0x8001 {
+		// that was the oversized command itself; the heartbeat reply follows
+		if !expect("heartbeat reply after the oversized command") {
+			return
+		}
+	}
+	hb()
 	return
 }
